@@ -94,7 +94,7 @@ PROPS = {
         trusted=["Model.SM hand-written from diam/sm/cer.go and smparser (CER.Parse, Application.Parse, chooseErr, handleGroup, validate); getLocalAddresses as a table over the harness' endpoint menu"],
     ),
     "C16": dict(
-        domains=[("codec", "answer", 6000, 100000), ("smserver", "hist", 800, 10000), ("smserver", "cer", 800, 10000), ("sctp", "serve", 300, 4000), ("sctp", "canswer", 120, 1500)],
+        domains=[("codec", "answer", 6000, 100000), ("smserver", "hist", 800, 10000), ("smserver", "cer", 800, 10000), ("sctp", "serve", 300, 4000), ("sctp", "canswer", 120, 1500), ("retry", "write", 2000, 30000)],
         relevant=["C16:"],
         theorems=['DV.Props.C16.C16_answer_ids', 'DV.Props.C16.C16_answer_flags', 'DV.Props.C16.C16_answer_result_code', 'DV.Props.C16.C16_answer_stream', 'DV.Props.C16.C16_sctp_stream', 'DV.Props.C16.C16_answer_len', 'DV.Props.C16.C16_gen', 'DV.Props.C16.C16_cea', 'DV.Props.C16.C16_dwa', 'DV.Props.C16.C16_concurrent_streams', 'DV.Props.C16.C16_select_then_write_counterexample'],
         gen_obligations=['Gen.RequestFlag', 'Gen.InvalidStreamID', 'Gen.Mbit', 'Gen.responseWriteStreamExits'],
@@ -108,7 +108,7 @@ PROPS = {
         trusted=CODEC_TRUST,
     ),
     "C08": dict(
-        domains=[("conn", "serve", 500, 6000), ("conn", "multi", 300, 4000), ("conn", "cnall4", 1, 1)],
+        domains=[("conn", "serve", 500, 6000), ("conn", "multi", 300, 4000), ("conn", "cnall4", 1, 1), ("conn", "accept", 60, 600)],
         thorough_extra=[("conn", "cnall5", 1, 1)],
         relevant=["C08:"],
         theorems=["DV.Props.C08."+t for t in ["C08_one_at_a_time","C08_next_after_return","C08_order","C08_all_dispatched","C08_frame","C08_enabled","C08_gen"]],
@@ -128,7 +128,7 @@ PROPS = {
         thorough_extra=[("conn", "cnall5", 1, 1)],
         relevant=["C15:"],
         theorems=["DV.Props.C15."+t for t in ["C15_panic_contained","C15_bad_input_contained","C15_one_report","C15_fault_cleanup","C15_frame","C15_mux_lock","C15_mux_lock_needs_defer","C15_listener","C15_listener_perm","C15_write_contained","C15_late_write_fails","C15_write_needs_own_writer","C15_gen"]],
-        gen_obligations=["Gen.serveDeferRecover","Gen.serveDeferClose","Gen.serveDeferNotify","Gen.muxServeRLockDeferred","Gen.acceptRetryCond","Gen.acceptBackoffFirstMs","Gen.acceptBackoffFactor","Gen.acceptBackoffMaxMs","Gen.acceptResetsDelay","Gen.acceptSpawnsServe","Gen.serveDefersListenerClose","Gen.capErrorReports","Gen.connBufferSources"],
+        gen_obligations=["Gen.serveDeferRecover","Gen.serveDeferClose","Gen.serveDeferNotify","Gen.muxServeRLockDeferred","Gen.acceptRetryCond","Gen.acceptBackoffFirstMs","Gen.acceptBackoffFactor","Gen.acceptBackoffMaxMs","Gen.acceptResetsDelay","Gen.acceptSpawnsServe","Gen.serveDefersListenerClose","Gen.capErrorReports","Gen.connBufferSources","Gen.tlsHandshakeSites"],
         trusted=CONN_TRUST + ["Model.Listener hand-written from Server.Serve's accept loop; back-off constants regenerated",
                               "Model.ConnWrite: writer objects and the transports they point at (Server.newConn, response.Write); that each connection allocates its own bufio.Writer is the regenerated fact Gen.connBufferSources"],
     ),
